@@ -14,6 +14,8 @@ def symbol_for(version, seed_):
     if isinstance(version, (list, tuple)) and version[0] == 'empty':
         qr = symbol_with_empty_row(version[1], seed_)
         return qr if qr is not None else symbol_for(version[1], seed_)
+    if isinstance(version, (list, tuple)) and version[0] == 'crafted':
+        return crafted_symbol(version[1], version[2], version[3], seed_)
     key = (version, seed_)
     if key not in _SYMS:
         segno = common.use_repo()
@@ -26,6 +28,39 @@ def symbol_for(version, seed_):
         if e != '-':
             kw['error'] = e
         _SYMS[key] = segno.make(gen.content_for_mode(r, mode, n), **kw)
+    return _SYMS[key]
+
+
+def crafted_symbol(version, pattern, mask, seed_):
+    """A symbol of the given version whose DATA modules are overwritten with an adversarial pattern; every function pattern, the format
+    and the version information stay exactly as the implementation drew them (the data-module map comes from the specification).
+    The serialisers must show any such matrix correctly: they know nothing about Reed-Solomon."""
+    key = ('crafted', version, pattern, mask, seed_)
+    if key not in _SYMS:
+        segno = common.use_repo()
+        v = symobs.version_int(version) if isinstance(version, str) else version
+        kw = {'version': version, 'mask': mask, 'boost_error': False}
+        qr = segno.make('1' if v < 1 else 'CRAFTED', **kw)
+        dm = T.datamap(v)
+        m = qr.matrix                      # tuple of bytearrays: modified in place
+        n = len(m)
+        for r in range(n):
+            for c in range(n):
+                if not dm[r][c]:
+                    continue
+                if pattern == 'rowcopy':
+                    m[r][c] = m[r - 1][c] if r else m[r][c]
+                elif pattern == 'colcopy':
+                    m[r][c] = m[r][c - 1] if c else m[r][c]
+                elif pattern == 'dark':
+                    m[r][c] = 1
+                elif pattern == 'light':
+                    m[r][c] = 0
+                elif pattern == 'checker':
+                    m[r][c] = (r + c) % 2
+                elif pattern == 'rows':
+                    m[r][c] = r % 2
+        _SYMS[key] = qr
     return _SYMS[key]
 
 
@@ -254,6 +289,11 @@ def run_c09(rep, tier):
         if kind in ('pam', 'xpm'):
             kw.pop('finder_dark', None)
         sess.append({'version': ('M2', 1)[i % 2], 'kind': kind, 'kw': dict(kw, scale=1 + i % 2), 'seed': common.seed(), 'family': 'raster'})
+    for v in (2, 'M2', 7) if tier == 'quick' else (1, 2, 3, 4, 5, 7, 'M1', 'M2', 'M3', 'M4'):
+        for pattern in ('rowcopy', 'colcopy', 'dark', 'light', 'checker', 'rows'):
+            for kind, kw in (('png', {'scale': 1}), ('png', {'scale': 3, 'dark': 'darkblue', 'light': None}), ('pbm', {'scale': 2}), ('pbm', {'plain': True}),
+                             ('pam', {'dark': (1, 2, 3, 128)}), ('ppm', {'scale': 2}), ('xbm', {}), ('xpm', {'scale': 2}), ('txt', {}), ('ans', {}), ('compact', {})):
+                sess.append({'version': ['crafted', v, pattern, 1], 'kind': kind, 'kw': dict(kw, border=(0, 1, 4)[len(sess) % 3]), 'seed': common.seed(), 'family': 'raster'})
     # many images of ONE colour shape in a row (one colour transparent, the other translucent): nothing may be used up
     shapes = [{'dark': '#00008b80', 'light': None}, {'dark': None, 'light': (255, 255, 0, 0.5)}, {'dark': (0, 0, 139, 7), 'light': None},
               {'dark': '#0008', 'light': None}, {'dark': (1, 2, 3, 0.25), 'light': None}]
@@ -399,6 +439,11 @@ def run_c10(rep, tier):
     for i in range(96 if tier == 'quick' else 480):
         kind = ('svg', 'pdf', 'eps', 'svg')[i % 4]
         sess.append({'version': ('M2', 1)[i % 2], 'kind': kind, 'kw': dict(cols[(i // 4 + i) % len(cols)], scale=(1, 2.5)[i % 2]), 'seed': common.seed(), 'family': 'vector'})
+    for v in (2, 'M2', 7) if tier == 'quick' else (1, 2, 3, 4, 5, 7, 'M1', 'M2', 'M3', 'M4'):
+        for pattern in ('rowcopy', 'colcopy', 'dark', 'light', 'checker', 'rows'):
+            for kind in ('svg', 'eps', 'pdf', 'tex'):
+                sess.append({'version': ['crafted', v, pattern, 1], 'kind': kind, 'kw': {'scale': (1, 2.5)[len(sess) % 2], 'border': (0, 1, 4)[len(sess) % 3]},
+                             'seed': common.seed(), 'family': 'vector'})
     # every integer alpha value (0..255) as stroke opacity, and the special colours black / white with the alpha values around the ends
     for a in range(256):
         sess.append({'version': 'M1', 'kind': 'svg', 'kw': {'dark': (0, 0, 139, a), 'scale': 1}, 'seed': common.seed(), 'family': 'vector'})
@@ -506,6 +551,17 @@ def gen_typed(tier, seed_):
             add('typed', kind, v, {'quiet_zone': 'black', 'timing_light': 'black', 'timing_dark': 'white'})
             # the same colour given in different notations for different types
             add('typed', kind, v, {'dark': '#000', 'finder_dark': 'black', 'timing_dark': 'darkred', 'data_dark': (0, 0, 0), 'border': 1})
+        # crafted data regions (equal adjacent rows / columns, all dark, all light, stripes): function patterns untouched
+        cols = r.sample(PALETTE, 13)
+        allkw = {opt: cols[i % 13] for i, opt in enumerate(TYPE_OPTS)}
+        for v in (2, 'M2', 7) if tier == 'quick' else (1, 2, 3, 4, 5, 7, 'M1', 'M2', 'M3', 'M4'):
+            for pattern in ('rowcopy', 'colcopy', 'dark', 'light', 'checker', 'rows'):
+                for mask in (range(8) if (pattern == 'rowcopy' and v == 2) else (1,)):
+                    if isinstance(v, str) and mask > 3:
+                        continue
+                    add('typed', kind, ['crafted', v, pattern, mask], dict(allkw, border=r.choice((0, 1, 4))))
+                    if pattern in ('rowcopy', 'colcopy'):
+                        add('typed', kind, ['crafted', v, pattern, mask], {'alignment_dark': '#cc0000', 'finder_dark': 'navy', 'border': 0})
         # transparency for single types (PNG / SVG)
         if kind != 'ppm':
             add('typed', kind, 1, {'data_light': None, 'finder_dark': 'red'})
